@@ -219,6 +219,7 @@ type netSim struct {
 	firstBlockAt       time.Duration
 	clientSeq          uint64
 	onChainResubmitted map[util.Uint256]bool
+	conflictVictims    map[util.Uint256]util.Uint256 // tx named by a Conflicts attribute -> the naming transaction
 }
 
 func (s *netSim) now() time.Duration { return time.Since(s.start) }
@@ -430,9 +431,22 @@ func (s *netSim) submitTx(v *vnode, tx *transaction.Transaction) {
 	if _, hgt, gerr := v.n.BC.GetTransaction(tx.Hash()); gerr == nil && hgt != ^uint32(0) {
 		onOwnChain = true
 	}
+	namerOnOwnChain := false
+	if namer, ok := s.conflictVictims[tx.Hash()]; ok {
+		if _, hgt, gerr := v.n.BC.GetTransaction(namer); gerr == nil && hgt != ^uint32(0) {
+			namerOnOwnChain = true
+		}
+	}
 	if pv := sim.Recover(func() { err = v.n.BC.PoolTx(tx) }); pv != nil {
 		s.r.violate(pv)
 		return
+	}
+	if namerOnOwnChain {
+		s.r.out.Probes["conflict_victim_submitted_after_namer_on_chain"]++
+		if err == nil {
+			s.r.violate(sim.Violatef("c07-invalid-tx-pooled", "c07-invalid-tx-pooled/named-by-on-chain-conflicts", "node %d pooled a transaction that is named by a Conflicts attribute of an on-chain transaction of the same signer", v.idx))
+			return
+		}
 	}
 	if s.onChainResubmitted[tx.Hash()] && onOwnChain && err == nil {
 		s.r.violate(sim.Violatef("c07-invalid-tx-pooled", "c07-invalid-tx-pooled/already-on-chain", "node %d pooled a transaction that is already on chain", v.idx))
@@ -562,7 +576,7 @@ func (r *run) runNet() {
 		sim.Harnessf("network plan missing")
 	}
 	s := &netSim{r: r, np: np, canon: map[uint32]util.Uint256{}, croot: map[uint32]string{}, defective: map[util.Uint256]string{},
-		goodAt: map[util.Uint256]time.Duration{}, seenTx: map[util.Uint256][]byte{}, onChainResubmitted: map[util.Uint256]bool{}}
+		goodAt: map[util.Uint256]time.Duration{}, seenTx: map[util.Uint256][]byte{}, onChainResubmitted: map[util.Uint256]bool{}, conflictVictims: map[util.Uint256]util.Uint256{}}
 	// entropy
 	old := crand.Reader
 	dr := &detRand{}
@@ -673,6 +687,10 @@ func (r *run) runNet() {
 	// planned events: client transactions, observer restarts, periodic sync offers
 	for i := range np.Txs {
 		t := np.Txs[i]
+		if r.prop == "C17" && i%3 == 1 {
+			s.at(time.Duration(t.AtMS)*time.Millisecond, func() { s.rulesTx(t) })
+			continue
+		}
 		s.at(time.Duration(t.AtMS)*time.Millisecond, func() { s.clientTx(t) })
 	}
 	for _, rs := range np.Restart {
@@ -796,8 +814,8 @@ func (s *netSim) finalNet() {
 		_ = k
 		views += c * 0
 	}
-	if s.np.Sync {
-		// liveness under synchrony: >= 5 blocks within 20 block times on every ledger
+	if s.np.Sync && s.np.CorruptPM == 0 {
+		// liveness under synchrony (a corrupted message is a lost message: not synchronous): >= 5 blocks within 20 block times on every ledger
 		if minH < 5 {
 			r.violate(sim.Violatef("liveness", "liveness/blocks", "synchronous configuration (no loss, no silence, delays <= %d ms): after %d ms the slowest ledger is at height %d (fastest %d)", s.np.MaxDelayMS, s.np.DurationMS, minH, maxH))
 			return
